@@ -142,6 +142,10 @@ func (p *parser) consumeEmitLine(nextState parseStateFn) parseStateFn {
 	// consume current character
 	nextToken := p.next()
 
+	if p.nextToken.typ == tokEOF {
+		p.lines = append(p.lines, p.currentLine)
+		return nil
+	}
 	if p.nextToken.typ != tokNewline {
 		p.err = fmt.Errorf("expected newline, got: '%s'", p.nextToken)
 		return nil
